@@ -121,10 +121,13 @@ def extract(repo=REPO, config="default", use_cache=True, verbose=False):
     os.makedirs(CACHE, exist_ok=True)
     cpath = os.path.join(CACHE, "facts-%s-%s.json" % (config, key))
     if use_cache and os.path.exists(cpath):
-        with open(cpath) as fh:
-            facts = json.load(fh)
-        facts["_cache"] = "hit"
-        return facts
+        try:
+            with open(cpath) as fh:
+                facts = json.load(fh)
+            facts["_cache"] = "hit"
+            return facts
+        except (OSError, ValueError):
+            pass      # pruned or half-written by a concurrent run: extract again
     t0 = time.time()
     scratch = tempfile.mkdtemp(prefix="nngverif.")
     try:
@@ -177,7 +180,7 @@ def extract(repo=REPO, config="default", use_cache=True, verbose=False):
         # keep the cache small
         olds = sorted((os.path.getmtime(os.path.join(CACHE, f)), f) for f in os.listdir(CACHE)
                       if f.startswith("facts-"))
-        for _, f in olds[:-8]:
+        for _, f in olds[:-16]:
             try:
                 os.remove(os.path.join(CACHE, f))
             except OSError:
